@@ -68,9 +68,6 @@ func TestVerifC21Mutations(t *testing.T) {
 		t.Fatalf("genuine token not accepted (%v %q)", ok, user)
 	}
 
-	if _, ok := caches.VerifC21Peek(caches.TokenCache, tok.str); !ok {
-		t.Fatal("genuine token not cached")
-	}
 
 	const hexd = "0123456789abcdef"
 	const other = "gzGZ -%_:xX"
